@@ -36,7 +36,8 @@ def selector_inv(rng):
     inv.ignore = True
     inv.patterns = rng.choice([['.*'], ['^app\\.']])
     inv.classes[('common.yml',)] = G.doc(['app.${env}'] + (['role.${role}'] if rng.random() < 0.5 else []), ['capp'],
-                                         ('m', [(S('trace'), L(S('common')))]))
+                                         ('m', [(S('trace'), L(S('common')))] +
+                                          ([(S('envname'), S('env is ${env}')), (S('roles'), L(S('${role}'), S('${env}')))] if rng.random() < 0.7 else [])))
     inv.classes[('app', 'prod.yml')] = G.doc([], ['prodapp'], ('m', [(S('app'), M(('tier', S('prod')))), (S('trace'), L(S('app.prod')))]))
     inv.classes[('role', 'web.yml')] = G.doc([], ['web'], ('m', [(S('port'), I(80)), (S('trace'), L(S('role.web')))]))
     envs = ['dev', 'prod', 'stage', 'prod', 'dev']
